@@ -68,6 +68,7 @@ func genHpackTables(repo string) (string, error) {
 //	h2_headers_empty_frag_ok    frame.go parseHeadersFrame: `len(p)-int(padLength) OP 0`  (`<` accepts an empty fragment, `<=` rejects it)
 //	h2_cont_advance             mhttp2.go readMetaFrame: the recursive ReadFrame call reads at `off+msize` (true) or at `off` (false)
 //	h2_client_settings_wakes    mhttp2.go MClientConn.processSettings: contains a call cc.cond.Broadcast()
+//	h2_client_settings_validated mhttp2.go MClientConn.processSettings: calls s.Valid() on every setting
 //	h2_write_chunk              mhttp2.go MFramer.writeData: const maxFrameSize
 //	h2_stream_err_drains        mhttp2.go MFramer.ReadFrame: a StreamError path drains the offending frame (data.Drain inside `if _, ok := err.(StreamError)`)
 //	h2_dispatch_continues       stream/http2/stream.go Dispatch (server and client): a StreamError does not leave the decode loop
@@ -176,6 +177,19 @@ func genH2Src(repo string) (string, error) {
 		ok = false
 	}
 	fmt.Fprintf(&b, "Definition h2_client_settings_wakes := %v.\n", wakes)
+	// --- MClientConn.processSettings validates every setting (call s.Valid())
+	validated := false
+	if fd := FindFunc(mf, "MClientConn", "processSettings"); fd != nil {
+		ast.Inspect(fd.Body, func(n ast.Node) bool {
+			if c, isCall := n.(*ast.CallExpr); isCall {
+				if sel, isSel := c.Fun.(*ast.SelectorExpr); isSel && sel.Sel.Name == "Valid" && len(c.Args) == 0 {
+					validated = true
+				}
+			}
+			return true
+		})
+	}
+	fmt.Fprintf(&b, "Definition h2_client_settings_validated := %v.\n", validated)
 	// --- writeData chunk constant
 	chunk := ""
 	if fd := FindFunc(mf, "MFramer", "writeData"); fd != nil {
